@@ -39,7 +39,7 @@ pub fn op_name(op: &Op) -> String {
 		Op::Fp(s) => format!("{}.canonical_form_rabin_fingerprint()", slot(s)),
 		Op::Json(s) => format!("serde_json::to_string(&{})", slot(s)),
 		Op::Freeze(s) => format!("{}.freeze()", slot(s)),
-		Op::Edit(s, k) => format!("{}.nodes_mut():{}", slot(s), ["no change", "rename first field", "add symbol", "fixed size + 1", "rename first named type"][*k as usize]),
+		Op::Edit(s, k) => format!("{}.nodes_mut():{}", slot(s), ["no change", "rename first field", "add symbol", "fixed size + 1", "rename first named type (alternately to q.Q and, via Name::from_fully_qualified_name(\".Q\"), to the null-namespace Q)"][*k as usize]),
 		Op::CloneAB => "b = a.clone()".into(),
 		Op::CloneFrom(0) => "a.clone_from(&b)".into(),
 		Op::CloneFrom(_) => "b.clone_from(&a)".into(),
@@ -112,6 +112,8 @@ pub fn bases() -> Vec<(&'static str, Base)> {
 
 struct Slot {
 	sm: SchemaMut,
+	/// the model's own copy of the nodes (names as the edits MEAN them, not as the crate reports)
+	model: Vec<GNode>,
 	/// `Some(minified original)` while the object still is the parsed, never edited schema
 	original: Option<String>,
 }
@@ -124,22 +126,26 @@ fn make(base: &Base) -> Slot {
 				std::process::exit(2)
 			});
 			let min = vmodel::json::parse(text).expect("base is JSON").to_min_string();
-			Slot { sm, original: Some(min) }
+			let model = ggen::from_crate(sm.nodes()).expect("base nodes are in the alphabet");
+			Slot { sm, model, original: Some(min) }
 		}
-		Base::Built(g) => Slot { sm: SchemaMut::from_nodes(ggen::to_crate(g)), original: None },
+		Base::Built(g) => Slot { sm: SchemaMut::from_nodes(ggen::to_crate(g)), model: g.clone(), original: None },
 	}
 }
 
-/// Apply edit `k`; false when the schema has no node the edit applies to.
-fn apply_edit(sm: &mut SchemaMut, k: u8) -> bool {
+/// Apply edit `k` to the object (through nodes_mut()) and to the model; false when the schema
+/// has no node the edit applies to.
+fn apply_edit(sm: &mut SchemaMut, model: &mut [GNode], k: u8) -> bool {
 	let nodes = sm.nodes_mut();
 	match k {
 		0 => true,
 		1 => {
-			for n in nodes.iter_mut() {
-				if let RegularType::Record(r) = &mut n.type_ {
-					if let Some(f) = r.fields.first_mut() {
-						f.name = if f.name == "zz" { "yy".into() } else { "zz".into() };
+			for (n, m) in nodes.iter_mut().zip(model.iter_mut()) {
+				if let (RegularType::Record(r), GKind::Record(_, mf)) = (&mut n.type_, &mut m.kind) {
+					if let (Some(f), Some(mf)) = (r.fields.first_mut(), mf.first_mut()) {
+						let new = if mf.0 == "zz" { "yy" } else { "zz" };
+						f.name = new.into();
+						mf.0 = new.into();
 						return true;
 					}
 				}
@@ -147,29 +153,41 @@ fn apply_edit(sm: &mut SchemaMut, k: u8) -> bool {
 			false
 		}
 		2 => {
-			for n in nodes.iter_mut() {
-				if let RegularType::Enum(e) = &mut n.type_ {
-					let s = format!("S{}", e.symbols.len());
-					e.symbols.push(s);
+			for (n, m) in nodes.iter_mut().zip(model.iter_mut()) {
+				if let (RegularType::Enum(e), GKind::Enum(_, ms)) = (&mut n.type_, &mut m.kind) {
+					let s = format!("S{}", ms.len());
+					e.symbols.push(s.clone());
+					ms.push(s);
 					return true;
 				}
 			}
 			false
 		}
 		3 => {
-			for n in nodes.iter_mut() {
-				if let RegularType::Fixed(f) = &mut n.type_ {
+			for (n, m) in nodes.iter_mut().zip(model.iter_mut()) {
+				if let (RegularType::Fixed(f), GKind::Fixed(_, ms)) = (&mut n.type_, &mut m.kind) {
 					f.size += 1;
+					*ms += 1;
 					return true;
 				}
 			}
 			false
 		}
 		_ => {
-			for n in nodes.iter_mut() {
+			// alternates between q.Q and the null-namespace Q, the latter said as ".Q"
+			for (n, m) in nodes.iter_mut().zip(model.iter_mut()) {
 				if let Some(name) = n.type_.name_mut() {
-					let new = if name.fully_qualified_name() == "q.Q" { "Q" } else { "q.Q" };
-					*name = Name::from_fully_qualified_name(new);
+					let mname = match &mut m.kind {
+						GKind::Record(nm, _) | GKind::Enum(nm, _) | GKind::Fixed(nm, _) => nm,
+						_ => return false,
+					};
+					if mname == "q.Q" {
+						*name = Name::from_fully_qualified_name(".Q");
+						*mname = "Q".into();
+					} else {
+						*name = Name::from_fully_qualified_name("q.Q");
+						*mname = "q.Q".into();
+					}
 					return true;
 				}
 			}
@@ -178,19 +196,18 @@ fn apply_edit(sm: &mut SchemaMut, k: u8) -> bool {
 	}
 }
 
-/// What the reference says about the current nodes: (fingerprint, regenerated JSON by a fresh object)
-fn expected(sm: &SchemaMut) -> Result<([u8; 8], String, String), String> {
-	let g = ggen::from_crate(sm.nodes()).ok_or("nodes outside the alphabet")?;
-	let ast = ggen::unfold(&g);
+/// What the reference says about the current nodes (the model's copy): fingerprint, the JSON a
+/// fresh object renders, the canonical form, and whether that rendering denotes the model.
+fn expected(slot: &Slot) -> Result<([u8; 8], String, String, Result<(), String>), String> {
+	let ast = ggen::unfold(&slot.model);
 	let text = pcf(&ast);
-	let fresh = SchemaMut::from_nodes(sm.nodes().to_vec());
+	let fresh = SchemaMut::from_nodes(slot.sm.nodes().to_vec());
 	let fresh_json = serde_json::to_string(&fresh).map_err(|e| format!("fresh object does not render: {e}"))?;
-	// the fresh rendering itself must denote the current nodes (reference resolver)
-	match resolve_text(&fresh_json, &ResolveCfg { allow_forward: false, allow_leading_dot: true }) {
-		Ok(back) if back == ast => {}
-		other => return Err(format!("fresh rendering {fresh_json} does not denote the current nodes: {other:?}")),
-	}
-	Ok((fingerprint_le(text.as_bytes()), fresh_json, text))
+	let denotes = match resolve_text(&fresh_json, &ResolveCfg { allow_forward: false, allow_leading_dot: true }) {
+		Ok(back) if back == ast => Ok(()),
+		other => Err(format!("the rendering {fresh_json} does not denote the current nodes {text}: the reference resolver reads it as {other:?}")),
+	};
+	Ok((fingerprint_le(text.as_bytes()), fresh_json, text, denotes))
 }
 
 #[derive(Clone, Copy, PartialEq)]
@@ -217,7 +234,7 @@ pub fn run_history(base: &Base, hist: &[Op], judge: Judge) -> (u64, Result<(), S
 		match *op {
 			Op::CloneAB => {
 				let Some(a) = &slots[0] else { return (INVALID, Ok(()), false) };
-				slots[1] = Some(Slot { sm: a.sm.clone(), original: a.original.clone() });
+				slots[1] = Some(Slot { sm: a.sm.clone(), model: a.model.clone(), original: a.original.clone() });
 				results.push("clone".into());
 			}
 			Op::CloneFrom(d) => {
@@ -225,12 +242,13 @@ pub fn run_history(base: &Base, hist: &[Op], judge: Judge) -> (u64, Result<(), S
 				let (dst, src) = if d == 0 { (&mut l[0], &r[0]) } else { (&mut r[0], &l[0]) };
 				let (Some(dst), Some(src)) = (dst.as_mut(), src.as_ref()) else { return (INVALID, Ok(()), false) };
 				dst.sm.clone_from(&src.sm);
+				dst.model = src.model.clone();
 				dst.original = src.original.clone();
 				results.push("clone_from".into());
 			}
 			Op::Edit(s, k) => {
 				let Some(slot) = slots[s as usize].as_mut() else { return (INVALID, Ok(()), false) };
-				if !apply_edit(&mut slot.sm, k) {
+				if !apply_edit(&mut slot.sm, &mut slot.model, k) {
 					return (INVALID, Ok(()), false);
 				}
 				slot.original = None;
@@ -238,7 +256,7 @@ pub fn run_history(base: &Base, hist: &[Op], judge: Judge) -> (u64, Result<(), S
 			}
 			Op::Fp(s) => {
 				let Some(slot) = slots[s as usize].as_ref() else { return (INVALID, Ok(()), false) };
-				let (want, _, text) = match expected(&slot.sm) {
+				let (want, _, text, _) = match expected(slot) {
 					Ok(x) => x,
 					Err(e) => return (hash64(&(hist, "machinery")), Err(format!("MACHINERY: {e}")), false),
 				};
@@ -248,23 +266,26 @@ pub fn run_history(base: &Base, hist: &[Op], judge: Judge) -> (u64, Result<(), S
 			}
 			Op::Json(s) => {
 				let Some(slot) = slots[s as usize].as_ref() else { return (INVALID, Ok(()), false) };
-				let (_, want, _) = match expected(&slot.sm) {
+				let (_, want, _, denotes) = match expected(slot) {
 					Ok(x) => x,
 					Err(e) => return (hash64(&(hist, "machinery")), Err(format!("MACHINERY: {e}")), false),
 				};
 				let got = guarded(|| serde_json::to_string(&slot.sm).map_err(|e| e.to_string()));
+				if let Err(e) = &denotes {
+					check(Judge::Json, false, e.clone());
+				}
 				check(Judge::Json, got == Out::Ok(want.clone()), format!("serde_json::to_string = {got:?}, a fresh SchemaMut::from_nodes(current nodes) renders {want}"));
 				results.push(format!("{got:?}"));
 			}
 			Op::Freeze(s) => {
 				let Some(slot) = slots[s as usize].take() else { return (INVALID, Ok(()), false) };
-				let (want_fp, fresh_json, text) = match expected(&slot.sm) {
+				let (want_fp, fresh_json, text, _) = match expected(&slot) {
 					Ok(x) => x,
 					Err(e) => return (hash64(&(hist, "machinery")), Err(format!("MACHINERY: {e}")), false),
 				};
 				let want_json = slot.original.clone().unwrap_or(fresh_json);
+				let slot_model = slot.model.clone();
 				let sm = slot.sm;
-				let sm_nodes = sm.nodes().to_vec();
 				let got = guarded(|| sm.freeze().map(|f| (*f.rabin_fingerprint(), f.json().to_owned())).map_err(|e| e.to_string()));
 				match &got {
 					Out::Ok((fp, js)) => {
@@ -277,8 +298,8 @@ pub fn run_history(base: &Base, hist: &[Op], judge: Judge) -> (u64, Result<(), S
 								_ => false,
 							}
 						} else {
-							let current = ggen::from_crate(sm_nodes.as_slice()).map(|g| ggen::unfold(&g));
-							matches!((resolve_text(js, &ResolveCfg { allow_forward: false, allow_leading_dot: true }), current), (Ok(back), Some(cur)) if back == cur)
+							let cur = ggen::unfold(&slot_model);
+							matches!(resolve_text(js, &ResolveCfg { allow_forward: false, allow_leading_dot: true }), Ok(back) if back == cur)
 						};
 						check(Judge::Json, ok, format!("freeze().json() = {js}, expected {} {want_json}", if slot.original.is_some() { "the original document (the object was never edited):" } else { "a document denoting the current nodes, such as what a fresh SchemaMut::from_nodes(current nodes) renders:" }));
 					}
